@@ -44,27 +44,37 @@ def chk_normal(inp):
         return bad("duplicate on-axis sensor: R does not reproduce that sensor with zero weight to the others", R.tolist(), E.tolist())
 
 
-def covobj(theta0=(0., 0.)):
+def covobj(theta0=(0., 0.), threads=1):
     mask = aotools.circle(2, 4)
-    return aotools.CovarianceMatrix(3, [mask, mask.copy(), mask.copy()], 8., [2., 2., 2.], [0, 0, 0], [list(theta0), [20, 0], [-10, 15]], [5e-7] * 3, 2, numpy.array([0., 6000.]), [0.2, 0.3], [25., 20.])
+    return aotools.CovarianceMatrix(3, [mask, mask.copy(), mask.copy()], 8., [2., 2., 2.], [0, 0, 0], [list(theta0), [20, 0], [-10, 15]], [5e-7] * 3, 2, numpy.array([0., 6000.]), [0.2, 0.3], [25., 20.],
+                                    threads=threads)
 
 
 def chk_method(inp):
-    cm = covobj()
-    M = cm.make_covariance_matrix()
-    for cond in (0, 1e-3):
-        R = cm.make_tomographic_reconstructor(cond)
-        want = SC.create_tomographic_covariance_reconstructor(M.copy(), int(cm.n_subaps[0]), cond)
-        if not numpy.array_equal(R, want):
-            return bad("make_tomographic_reconstructor(%g) is not the reconstructor of the current covariance matrix with the first WFS on axis" % cond)
-    # rebuild with a changed system, same conditioning: the reconstructor must follow the new matrix
-    cm.gs_positions = [[5, 5], [20, 0], [-10, 15]]
-    cm.layer_r0s = [0.1, 0.5]
-    M2 = cm.make_covariance_matrix()
-    R2 = cm.make_tomographic_reconstructor(1e-3)
-    want2 = SC.create_tomographic_covariance_reconstructor(M2.copy(), int(cm.n_subaps[0]), 1e-3)
-    if not numpy.array_equal(R2, want2):
-        return bad("after rebuilding the covariance matrix the reconstructor is stale (not computed from the current matrix)", float(abs(R2 - want2).max()), 0.0)
+    # both builders of the covariance matrix (in-process, and the pool of worker processes) and a switch between them on one object
+    for threads, threads2 in ((1, 1), (2, 2), (1, 2), (2, 1)):
+        cm = covobj(threads=threads)
+        M = cm.make_covariance_matrix()
+        for cond in (0, 1e-3):
+            R = cm.make_tomographic_reconstructor(cond)
+            want = SC.create_tomographic_covariance_reconstructor(M.copy(), int(cm.n_subaps[0]), cond)
+            if not numpy.array_equal(R, want):
+                return bad("make_tomographic_reconstructor(%g) is not the reconstructor of the current covariance matrix with the first WFS on axis (threads=%d)" % (cond, threads))
+        # rebuild with a changed system, same conditioning: the reconstructor must follow the new matrix
+        cm.gs_positions = [[5, 5], [20, 0], [-10, 15]]
+        cm.layer_r0s = [0.1, 0.5]
+        cm.threads = threads2
+        M2 = cm.make_covariance_matrix()
+        R2 = cm.make_tomographic_reconstructor(1e-3)
+        want2 = SC.create_tomographic_covariance_reconstructor(M2.copy(), int(cm.n_subaps[0]), 1e-3)
+        if not numpy.array_equal(R2, want2):
+            return bad("after rebuilding the covariance matrix (threads %d, then %d) the reconstructor is stale (not computed from the current matrix)" % (threads, threads2), float(abs(R2 - want2).max()), 0.0)
+        # a matrix assigned by the caller (e.g. a measured covariance) is the current matrix as well
+        cm.covariance_matrix = (M2 * 2 + numpy.eye(len(M2), dtype=M2.dtype)).astype(M2.dtype)
+        R3 = cm.make_tomographic_reconstructor(1e-3)
+        want3 = SC.create_tomographic_covariance_reconstructor(cm.covariance_matrix.copy(), int(cm.n_subaps[0]), 1e-3)
+        if not numpy.array_equal(R3, want3):
+            return bad("after the caller replaced covariance_matrix the reconstructor is stale (not computed from the current matrix)", float(abs(R3 - want3).max()), 0.0)
 
 
     # end to end: geometries fed through the builder, incl. a guide star in the SAME direction as the target sensor but at another
